@@ -3,6 +3,7 @@ import XPathV.Lemmas.AxesLemmas
 import XPathV.Generated.ExtraFacts
 import XPathV.Model.Api
 import XPathV.Lemmas.Facts
+import XPathV.Lemmas.ApiSem
 /-!
 # C01 — predicate-free location paths select exactly the XPath 1.0 node-set
 -/
@@ -98,5 +99,19 @@ theorem C01_single_step {d : Doc} (wf : WF d) (o : Ref) (ho : validRef d o = tru
 /-- non-vacuity: `//b` (as the parser produces it) is in the fragment -/
 example : PathSem.PathPF (.axis ⟨"child", .elem, "", "b", "", false, ""⟩ (.axis ⟨"descendant-or-self", .all, "", "", "", false, ""⟩ (.root "//"))) :=
   .axis _ _ (.axis _ _ (.root _) (by decide)) (by decide)
+
+open XPathV.PathSem XPathV.ApiSem in
+/-- **C01 at the public API, from the expression text**: `compile` (scanner + parser + builder at
+the configuration read off the current source, the fuel `compile` itself supplies) followed by
+`Select`: if the text parses into a predicate-free path, the compiled expression selects, at every
+valid context node of every well-formed document, exactly the members of the oracle's node set -/
+theorem C01_from_text {d : Doc} (wf : WF d) (cfg : ECfg) (hns : cfg.nsIface = true)
+    (hinj : HashInj d cfg) (regexOk : RegexOk) (ns : Option (List (String × String)))
+    (text : List Char) (a : Ast) (hparse : parse (fuelFor text) (defaultCfg ns) text = .ok a)
+    (hpf : PathPF a) (p : Plan) (hcomp : compile { regexOk := regexOk } ns text = .ok p)
+    (c : Ref) (hc : validRef d c = true) :
+    ∃ l nsl, selectAll (F := F) d cfg p c = .ok l ∧
+      Spec.evalTop (F := F) d a c = .ok (.nodes nsl) ∧ ∀ x, x ∈ l ↔ x ∈ nsl :=
+  C01_compile_source wf cfg hns hinj regexOk ns text a hparse hpf p hcomp c hc
 
 end XPathV.Theorems.C01
